@@ -214,7 +214,7 @@ def run(rep, tier, seed, selftest):
             log("[tlc] %s: %s (%s)" % (cfg, "violates %s as expected" % inv if r.violated == inv else "UNEXPECTED: %s" % r.violated, what))
     # ---- impl -> spec: every recorded run against the protocol
     prefix = os.path.join(common.WORK, "pipeline-c02-%d" % os.getpid())
-    files, nruns = pc.split_events(p["events"], prefix, parts=12)
+    files, nruns = pc.split_events(p["events"], prefix, parts=max(12, meta["events"] // 80000))
     results = pc.validate_traces("Trace_Pipeline", "Trace_Pipeline_plain.cfg", files, parallel=6)
     rejected = {}
     trace_states = 0
